@@ -23,6 +23,7 @@ type CallInfo struct {
 	PkgPath string        // package of Obj
 	Recv    string        // receiver named type (without *), or interface name for invoke
 	Builtin string
+	ViaVar  bool // called through a package-level func variable (Obj is nil)
 }
 
 func callInfo(c ssa.CallInstruction) CallInfo {
@@ -49,6 +50,14 @@ func callInfo(c ssa.CallInstruction) CallInfo {
 	}
 	fn := cc.StaticCallee()
 	if fn == nil {
+		// call through a package-level function variable (e.g. sdk.ZeroInt = math.ZeroInt, sdkerrors.Wrap = errorsmod.Wrap)
+		if u, ok := cc.Value.(*ssa.UnOp); ok && u.Op == token.MUL {
+			if g, ok := u.X.(*ssa.Global); ok && g.Pkg != nil {
+				ci.Name = g.Name()
+				ci.PkgPath = g.Pkg.Pkg.Path()
+				ci.ViaVar = true
+			}
+		}
 		return ci
 	}
 	ci.Static = fn
